@@ -29,6 +29,34 @@ def check(pid, tier, args):
     if not r.printed:
         raise vlib.Infra("Hostile case matrix is empty")
     run.add_tlc("MC_Hostile (case matrix: fields x boundary classes + wrapping pairs)", r)
+    # design level: the ICC reader's length / offset arithmetic over wrapping words
+    # (spec/IccArith.tla): repaired design holds, as-found design must be rejected;
+    # every case of the repaired model is replayed on the real reader (word-scaled to
+    # 32 bits) - a disagreement in outcome is DRIFT, an escaped panic is a violation
+    drift = 0
+    for part, expect in (("tagtable", "AllocBounded"), ("textdesc", "AllocBounded"), ("mluc", "NoEscapedPanic")):
+        rw = vlib.tlc("IccArith", "IccArith_%s_wrap32.cfg" % part, workers=4, heap="2g")
+        if rw.violated != expect:
+            raise vlib.Infra("IccArith %s as-found design should violate %s (got %s)" % (part, expect, rw.violated))
+        run.add_tlc("IccArith/%s/wrap32 (expected counterexample: %s)" % (part, expect), rw)
+        rg = vlib.tlc("IccArith", "IccArith_%s_gen.cfg" % part, workers=8, heap="3g")
+        if rg.violated or not rg.printed:
+            raise vlib.Infra("IccArith %s repaired design violates %s" % (part, rg.violated))
+        run.add_tlc("IccArith/%s/repaired" % part, rg)
+        path = os.path.join(sc, "arith_%s.ndjson" % part)
+        open(path, "w").write("\n".join(json.dumps(c) for c in rg.printed) + "\n")
+        pa = vlib.run([drive, "iccarith", "-cases", path], timeout=1800)
+        st = json.loads(pa.stdout.strip().split("\n")[-1])
+        drift += st["drift"]
+        run.cov.setdefault("iccarith_cases_replayed", 0)
+        run.cov["iccarith_cases_replayed"] += st["cases"]
+        if st["escaped_panics"]:
+            run.violation({"finding_key": None, "case": st["first_escaped"], "part": part},
+                          "a panic escaped the ICC reader / Description on word-scaled case %s" % st["first_escaped"][:300])
+        if st["drift"]:
+            run.note("DRIFT: IccArith(%s) and the real reader disagree on %d of %d cases, e.g. %s" % (
+                part, st["drift"], st["cases"], st["first"][:300]))
+    run.cov["iccarith_drift"] = drift
     cases = os.path.join(sc, "cases_hostile.ndjson")
     with open(cases, "w") as o:
         for c in r.printed:
